@@ -137,7 +137,7 @@ def run(tier, seed):
             problem = f"{len(aa)} answers for {2 + resumed + nb + npr} requests"
         elif aa[0][1][0] != "error":
             raise ToolError(f"the failing evaluation did not fail for {key}: {aa[0]}")
-        elif aa[1 + resumed + nb][1][:2] != ("command", "Aborted"):
+        elif aa[1 + resumed + nb][1][0] != "command":      # the wording of the acknowledgement is not part of the property
             problem = f":abort answered {aa[1 + resumed + nb][1][:2]}"
         else:
             pa = aa[-npr:]
